@@ -66,7 +66,9 @@ def _real_nets(block):
             par = par[1].name
         elif n.op == 's':
             par = tuple(int(x) for x in par)
-        out.append(_net_names(n.op, par, [a.name for a in n.args], [d.name for d in n.dests]))
+        out.append(_net_names(n.op, par, [('const', a.bitwidth, int(a.val)) if isinstance(a, Const) else a.name for a in n.args],
+                              [d.name for d in n.dests]))
+    # (which Const object carries a value is immaterial: constants are compared by width and value)
     # (Block.logic is a set of value-compared tuples: two identical nets -- e.g. two write ports that became identical
     # after a substitution -- are one element there; the comparison with the model is therefore on sets)
     return sorted(set(out), key=repr)
@@ -124,6 +126,141 @@ def _derive_cert(kind, ser, after_block):
     return removed, sigma
 
 
+def _derive_constprop(ser, after):
+    """certificate of one constant-propagation pass: the *kind* of each change follows the pass's rules (fold to a constant,
+    pass the other operand through, invert the other operand), the *names* of the constants are read off the block after
+    the call.  Returns (block data extended by the constant wires, wire names by id, removed net indices, sigma, rewrites)
+    or None when a register is folded (outside the model)."""
+    import copy
+    nets = ser.nets
+    data = copy.deepcopy(ser.data)
+    names = [w.name for w in ser.wires]
+    idof = {n_: i for i, n_ in enumerate(names)}
+
+    def add_const(name, width, val):
+        idof[name] = len(names)
+        names.append(name)
+        data['wires'].append({'n': name, 'w': width, 'k': 'c', 'v': int(val)})
+    for w in sorted(after.wirevector_set, key=lambda w_: w_.name):
+        if w.name not in idof:
+            if not isinstance(w, Const):
+                raise ValueError('new non-constant wire %s' % w.name)
+            add_const(w.name, w.bitwidth, w.val)
+    after_by_dest = {}
+    for n in after.logic:
+        for d in n.dests:
+            after_by_dest[d.name] = n
+    two = {'&': lambda l, r: l & r, '|': lambda l, r: l | r, '^': lambda l, r: l ^ r, 'n': lambda l, r: 1 - (l & r)}
+    plan = {}       # net index -> ('const', value) | ('wire', other wire) | ('inv', other wire)
+    for i, n in enumerate(nets):
+        if n.op in 'wcsm@' or n.op not in '~&|^nr':
+            continue
+        nconst = sum(isinstance(a, Const) for a in n.args)
+        if nconst == 0:
+            continue
+        if n.op == 'r':
+            return None
+        if n.op in two and nconst == 1:
+            if any(len(w) != 1 for w in n.args + n.dests):
+                continue
+            cw, other = n.args
+            if isinstance(other, Const):
+                cw, other = other, cw
+            outs = [two[n.op](cw.val, x) for x in (0, 1)]
+            plan[i] = ('const', outs[0]) if outs[0] == outs[1] else (('wire', other) if outs[0] == 0 else ('inv', other))
+        elif n.op in two:
+            if n.op == 'n':
+                plan[i] = ('const', ~(n.args[0].val & n.args[1].val) & n.args[0].bitmask)
+            else:
+                plan[i] = ('const', two[n.op](n.args[0].val, n.args[1].val))
+        else:
+            plan[i] = ('const', ~n.args[0].val & n.args[0].bitmask)
+    removed = [i for i, pl in plan.items() if pl[0] != 'inv' and not isinstance(nets[i].dests[0], Output)]
+    removed_ids = set(removed)
+    removed_dest = {nets[i].dests[0]: i for i in removed}
+    synth = [0]
+
+    def const_name_for(i, val):
+        """the constant wire the pass made for the folded net i: the one its surviving readers now read"""
+        d = nets[i].dests[0]
+        if isinstance(d, Output):
+            na = after_by_dest.get(d.name)
+            if na is not None and na.op == 'w' and isinstance(na.args[0], Const):
+                return na.args[0].name
+        # the wires that now stand for d: d itself and every removed pass-through gate whose operand chain ends in d
+        group = [d]
+        grew = True
+        while grew:
+            grew = False
+            for j in removed:
+                if plan[j][0] == 'wire' and any(plan[j][1] is g_ for g_ in group) and not any(nets[j].dests[0] is g_ for g_ in group):
+                    group.append(nets[j].dests[0])
+                    grew = True
+        for n2i, n2 in enumerate(nets):
+            if n2.op == '@':
+                # a write port has no destination to find it by: match it by its memory and its unchanged arguments
+                hits = [k for k, a in enumerate(n2.args) if any(a is g_ for g_ in group)]
+                if hits:
+                    cands = [x for x in after.logic if x.op == '@' and x.op_param[0] == n2.op_param[0]
+                             and all(x.args[k].name == n2.args[k].name for k in range(3) if k not in hits and n2.args[k].name in
+                                     {w_.name for w_ in after.wirevector_set})]
+                    cands = [x for x in cands if isinstance(x.args[hits[0]], Const)]
+                    if cands:
+                        return cands[0].args[hits[0]].name
+                continue
+            if n2i in removed_ids or not n2.dests:
+                continue
+            if n2i in plan and plan[n2i][0] in ('inv', 'wire') and any(plan[n2i][1] is g_ for g_ in group):
+                # a reader that is itself rewritten into `~ operand` / `w operand`
+                na = after_by_dest.get(n2.dests[0].name)
+                if na is not None and len(na.args) == 1 and isinstance(na.args[0], Const):
+                    return na.args[0].name
+                continue
+            hits = [k for k, a in enumerate(n2.args) if any(a is g_ for g_ in group)]
+            if hits:
+                na = after_by_dest.get(n2.dests[0].name)
+                if na is not None and len(na.args) == len(n2.args) and isinstance(na.args[hits[0]], Const) \
+                        and (na.op == n2.op or (n2i in plan)):
+                    return na.args[hits[0]].name
+        synth[0] += 1
+        nm = 'verif_const_%d_%d' % (i, synth[0])
+        add_const(nm, len(d), val)
+        return nm
+    target = {}     # removed dest wire -> replacement wire name (before chains are resolved)
+    rewrites = []
+    for i, pl in sorted(plan.items()):
+        n = nets[i]
+        d = n.dests[0]
+        if pl[0] == 'inv':
+            rewrites.append({'old': i, 'new': {'op': '~', 'a': [idof[pl[1].name]], 'd': [idof[d.name]]}})
+        elif isinstance(d, Output):
+            src = const_name_for(i, pl[1]) if pl[0] == 'const' else pl[1].name
+            rewrites.append({'old': i, 'new': {'op': 'w', 'a': [idof[src]], 'd': [idof[d.name]]}})
+        else:
+            target[d.name] = const_name_for(i, pl[1]) if pl[0] == 'const' else pl[1].name
+
+    def resolve(nm, depth=0):
+        return nm if nm not in target or depth > 200 else resolve(target[nm], depth + 1)
+    sigma = [[idof[nets[i].dests[0].name], idof[resolve(nets[i].dests[0].name)]] for i in removed]
+    return data, names, removed, sigma, rewrites
+
+
+def _model_nets(resp_nets, wires_data, names, memname):
+    """the nets the driver returned, by wire names (constants by width and value), as a sorted set"""
+    def arg(x):
+        w = wires_data[x]
+        return ('const', w['w'], int(w['v'])) if w['k'] == 'c' else names[x]
+    want = []
+    for n in resp_nets:
+        par = n.get('p')
+        if n['op'] in 'm@':
+            par = memname.get(par, par)
+        elif n['op'] == 's':
+            par = tuple(par)
+        want.append(_net_names(n['op'], par, [arg(x) for x in n['a']], [names[x] for x in n['d']]))
+    return sorted(set(want), key=repr)
+
+
 class AliasWatch(object):
     """while active, every call of passes._remove_wire_nets / _remove_slice_nets / _replace_subexps is compared with the
     Lean model of alias elimination: the certificate derived for the call must be justified (certOk, schedsOkB) and
@@ -167,16 +304,9 @@ class AliasWatch(object):
                 ctx.alias_first = getattr(ctx, 'alias_first', None) or ('%s: certificate not accepted (cert_ok=%s) removed=%r sigma=%r' % (
                     kind, resp['cert_ok'], removed, sigma))
             memname = {mid: m.name for mid, m in ser.mems.items()}
-            want = []
-            for n in resp['nets']:
-                par = n.get('p')
-                if n['op'] in 'm@':
-                    par = memname.get(par, par)
-                elif n['op'] == 's':
-                    par = tuple(par)
-                want.append(_net_names(n['op'], par, [ser.wires[x].name for x in n['a']], [ser.wires[x].name for x in n['d']]))
+            want = _model_nets(resp['nets'], ser.data['wires'], [w_.name for w_ in ser.wires], memname)
             got = _real_nets(block)
-            if sorted(set(want), key=repr) != got:
+            if want != got:
                 ctx.alias_bad = getattr(ctx, 'alias_bad', 0) + 1
                 only_m = [x for x in want if x not in got][:2]
                 only_r = [x for x in got if x not in want][:2]
@@ -211,21 +341,62 @@ class AliasWatch(object):
                 ctx.dead_first = getattr(ctx, 'dead_first', None) or ('removal not accepted (dead_ok=%s): removed %r' % (
                     resp['dead_ok'], [str(ser.nets[i]).strip() for i in removed][:3]))
             memname = {mid: m.name for mid, m in ser.mems.items()}
-            want = []
-            for n in resp['nets']:
-                par = n.get('p')
-                if n['op'] in 'm@':
-                    par = memname.get(par, par)
-                elif n['op'] == 's':
-                    par = tuple(par)
-                want.append(_net_names(n['op'], par, [ser.wires[x].name for x in n['a']], [ser.wires[x].name for x in n['d']]))
-            if sorted(set(want), key=repr) != _real_nets(block):
+            want = _model_nets(resp['nets'], ser.data['wires'], [w_.name for w_ in ser.wires], memname)
+            if want != _real_nets(block):
                 ctx.dead_bad = getattr(ctx, 'dead_bad', 0) + 1
             return res
         self.saved['_remove_unlistened_nets'] = orig
         passes._remove_unlistened_nets = wrapped
 
+    def _wrap_constprop(self):
+        orig = passes._constant_prop_pass
+        ctx = self.ctx
+
+        def wrapped(block, *a, **kw):
+            small = len(block.logic) <= self.MAXNETS
+            ser = Ser(block) if small else None
+            res = orig(block, *a, **kw)
+            if not small:
+                ctx.count('constprop-tie-skipped-large-block', 'n')
+                return res
+            try:
+                cert = _derive_constprop(ser, block)
+            except Exception as e:  # noqa
+                ctx.cp_err = getattr(ctx, 'cp_err', 0) + 1
+                ctx.cp_first = getattr(ctx, 'cp_first', None) or ('derivation: %s: %s' % (type(e).__name__, str(e)[:160]))
+                return res
+            if cert is None:
+                ctx.count('constprop-tie-skipped', 'folds a register (the sanctioned difference, outside the model)')
+                return res
+            data, names, removed, sigma, rewrites = cert
+            resp = ctx.driver.ask({'cmd': 'alias', 'block': data, 'removed': removed, 'sigma': sigma, 'rewrites': rewrites})
+            if not resp.get('ok'):
+                raise RuntimeError('alias model: %s' % resp)
+            ctx.cp_n = getattr(ctx, 'cp_n', 0) + 1
+            ctx.count('constprop-tie', 'removed=%d rewritten=%d' % (min(len(removed), 4), min(len(rewrites), 4)))
+            if not resp['scheds_ok']:
+                ctx.cp_notok = getattr(ctx, 'cp_notok', 0) + 1
+                ctx.cp_first = getattr(ctx, 'cp_first', None) or ('certificate not accepted (cert_ok=%s): removed %r, rewrites %r' % (
+                    resp['cert_ok'], [str(ser.nets[i]).strip() for i in removed][:3], rewrites[:2]))
+                if os.environ.get('VERIF_ALIAS_DEBUG'):
+                    import json as _j
+                    with open(os.environ['VERIF_ALIAS_DEBUG'], 'a') as f_:
+                        f_.write(_j.dumps({'kind': 'constprop', 'removed': removed, 'sigma': sigma, 'rewrites': rewrites,
+                                           'nets': [str(n_).strip() for n_ in ser.nets], 'wires': names,
+                                           'after': [str(n_).strip() for n_ in block.logic]}) + '\n')
+            memname = {mid: m.name for mid, m in ser.mems.items()}
+            want = _model_nets(resp['nets'], data['wires'], names, memname)
+            if want != _real_nets(block):
+                ctx.cp_bad = getattr(ctx, 'cp_bad', 0) + 1
+                got = _real_nets(block)
+                ctx.cp_first = getattr(ctx, 'cp_first', None) or ('only in model %r, only in pass output %r' % (
+                    [x for x in want if x not in got][:2], [x for x in got if x not in want][:2]))
+            return res
+        self.saved['_constant_prop_pass'] = orig
+        passes._constant_prop_pass = wrapped
+
     def __enter__(self):
+        self._wrap_constprop()
         self._wrap_dead()
         self._wrap('_remove_wire_nets', 'wire')
         self._wrap('_remove_slice_nets', 'slice')
@@ -391,6 +562,13 @@ def main(ctx):
                '%d/%d calls differ, %d certificates not accepted, %d derivation errors%s' % (
                    ab, an, ak, ae, ('; first: ' + ctx.alias_first) if getattr(ctx, 'alias_first', None) else ''))
     ctx.extra['alias_tie'] = {'calls': an, 'differ': ab, 'not_accepted': ak, 'errors': ae}
+    cn, cb, ck, ce = (getattr(ctx, x, 0) for x in ('cp_n', 'cp_bad', 'cp_notok', 'cp_err'))
+    ctx.oblige('tie:every constant-propagation pass = Lean Alias.applyCert of a justified certificate with folds, pass-through gates '
+               'and rewrites (net by net; certOk and schedsOkB evaluated per call; passes that fold a register are outside the model)',
+               cb == 0 and ck == 0 and ce == 0 and cn > 0,
+               '%d/%d calls differ, %d certificates not accepted, %d derivation errors%s' % (
+                   cb, cn, ck, ce, ('; first: ' + ctx.cp_first) if getattr(ctx, 'cp_first', None) else ''))
+    ctx.extra['constprop_tie'] = {'calls': cn, 'differ': cb, 'not_accepted': ck, 'errors': ce}
     dn, db, dk = (getattr(ctx, x, 0) for x in ('dead_n', 'dead_bad', 'dead_notok'))
     ctx.oblige('tie:_remove_unlistened_nets = Lean Dead.applyDead of a closed removal (net by net; deadOk and deadSchedsOkB '
                'evaluated per call; calls that remove a register net are outside the model and skipped)', db == 0 and dk == 0 and dn > 0,
